@@ -5,41 +5,57 @@
 (* collection lock; the disk write may fail (fault budget); the process    *)
 (* may crash in any state, losing `mem`; after a restart the first access  *)
 (* loads `disk` (the load may fail and is retried by the next access).     *)
+(* The load is not atomic: LoadStart .. LoadItem(k)* .. LoadOK | LoadFail  *)
+(* inject the persisted resources one by one under the load lock; every    *)
+(* other access (Begin, Read) waits for `loaded`, so no caller ever sees   *)
+(* an empty or partly loaded state (ReadsSeeDisk).                         *)
 (***************************************************************************)
 EXTENDS Integers, Sequences, FiniteSets, TLC
 CONSTANTS Keys, MaxOps, MaxFaults, MaxCrashes
-VARIABLES mem, disk, loaded, pc, cur, acked, events, nops, nfaults, ncrashes, ghostDisk
+VARIABLES mem, disk, loaded, pc, cur, acked, events, nops, nfaults, ncrashes, ghostDisk,
+          inload, injected, obs     \* load in progress, keys injected so far, last value a concurrent reader got
 (* mem/disk/acked: key -> version (0 = absent); events: number of published events; ghostDisk: result of *)
 (* all operations whose disk write succeeded                                                              *)
-vars == <<mem, disk, loaded, pc, cur, acked, events, nops, nfaults, ncrashes, ghostDisk>>
+vars == <<mem, disk, loaded, pc, cur, acked, events, nops, nfaults, ncrashes, ghostDisk, inload, injected, obs>>
+lvars == <<inload, injected, obs>>
 None == [op |-> "none", k |-> "", v |-> 0]
 Zero == [k \in Keys |-> 0]
 Init == mem = Zero /\ disk = Zero /\ loaded = TRUE /\ pc = "idle" /\ cur = None /\ acked = Zero
         /\ events = 0 /\ nops = 0 /\ nfaults = 0 /\ ncrashes = 0 /\ ghostDisk = Zero
+        /\ inload = FALSE /\ injected = {} /\ obs = [k |-> "", v |-> 0, d |-> 0]
 
 (* an operation starts only on a loaded state (every access loads first) *)
 Begin(k) == /\ pc = "idle" /\ loaded /\ nops < MaxOps /\ nops' = nops + 1
             /\ \E op \in (IF mem[k] = 0 THEN {"put"} ELSE {"put", "destroy"}) :
                  cur' = [op |-> op, k |-> k, v |-> IF op = "put" THEN mem[k] + 1 ELSE 0]
             /\ pc' = "disk"
-            /\ UNCHANGED <<mem, disk, loaded, acked, events, nfaults, ncrashes, ghostDisk>>
+            /\ UNCHANGED lvars /\ UNCHANGED <<mem, disk, loaded, acked, events, nfaults, ncrashes, ghostDisk>>
 DiskOK == /\ pc = "disk" /\ disk' = [disk EXCEPT ![cur.k] = cur.v] /\ ghostDisk' = [ghostDisk EXCEPT ![cur.k] = cur.v]
-          /\ pc' = "mem" /\ UNCHANGED <<mem, loaded, cur, acked, events, nops, nfaults, ncrashes>>
+          /\ pc' = "mem" /\ UNCHANGED lvars /\ UNCHANGED <<mem, loaded, cur, acked, events, nops, nfaults, ncrashes>>
 DiskFail == /\ pc = "disk" /\ nfaults < MaxFaults /\ nfaults' = nfaults + 1
             /\ pc' = "idle" /\ cur' = None              \* the operation fails: nothing else happens
-            /\ UNCHANGED <<mem, disk, loaded, acked, events, nops, ncrashes, ghostDisk>>
+            /\ UNCHANGED lvars /\ UNCHANGED <<mem, disk, loaded, acked, events, nops, ncrashes, ghostDisk>>
 MemApply == /\ pc = "mem" /\ mem' = [mem EXCEPT ![cur.k] = cur.v] /\ events' = events + 1
-            /\ pc' = "ack" /\ UNCHANGED <<disk, loaded, cur, acked, nops, nfaults, ncrashes, ghostDisk>>
+            /\ pc' = "ack" /\ UNCHANGED lvars /\ UNCHANGED <<disk, loaded, cur, acked, nops, nfaults, ncrashes, ghostDisk>>
 Ack == /\ pc = "ack" /\ acked' = [acked EXCEPT ![cur.k] = cur.v] /\ pc' = "idle" /\ cur' = None
-       /\ UNCHANGED <<mem, disk, loaded, events, nops, nfaults, ncrashes, ghostDisk>>
+       /\ UNCHANGED lvars /\ UNCHANGED <<mem, disk, loaded, events, nops, nfaults, ncrashes, ghostDisk>>
 Crash == /\ ncrashes < MaxCrashes /\ ncrashes' = ncrashes + 1
-         /\ mem' = Zero /\ loaded' = FALSE /\ pc' = "idle" /\ cur' = None
-         /\ UNCHANGED <<disk, acked, events, nops, nfaults, ghostDisk>>
-LoadOK == /\ ~loaded /\ pc = "idle" /\ mem' = disk /\ loaded' = TRUE
-          /\ UNCHANGED <<disk, pc, cur, acked, events, nops, nfaults, ncrashes, ghostDisk>>
-LoadFail == /\ ~loaded /\ pc = "idle" /\ nfaults < MaxFaults /\ nfaults' = nfaults + 1
-            /\ UNCHANGED <<mem, disk, loaded, pc, cur, acked, events, nops, ncrashes, ghostDisk>>
-Next == (\E k \in Keys : Begin(k)) \/ DiskOK \/ DiskFail \/ MemApply \/ Ack \/ Crash \/ LoadOK \/ LoadFail
+         /\ mem' = Zero /\ loaded' = FALSE /\ pc' = "idle" /\ cur' = None /\ inload' = FALSE /\ injected' = {}
+         /\ UNCHANGED <<disk, acked, events, nops, nfaults, ghostDisk, obs>>
+(* the first access after a restart takes the load lock and injects the persisted resources one by one *)
+LoadStart == /\ ~loaded /\ ~inload /\ pc = "idle" /\ inload' = TRUE /\ injected' = {}
+             /\ UNCHANGED <<mem, disk, loaded, pc, cur, acked, events, nops, nfaults, ncrashes, ghostDisk, obs>>
+LoadItem(k) == /\ inload /\ k \notin injected /\ mem' = [mem EXCEPT ![k] = disk[k]] /\ injected' = injected \cup {k}
+               /\ UNCHANGED <<disk, loaded, pc, cur, acked, events, nops, nfaults, ncrashes, ghostDisk, inload, obs>>
+LoadOK == /\ inload /\ injected = Keys /\ loaded' = TRUE /\ inload' = FALSE
+          /\ UNCHANGED <<mem, disk, pc, cur, acked, events, nops, nfaults, ncrashes, ghostDisk, injected, obs>>
+(* a failing load leaves what it injected so far; `loaded` stays false and the next access starts over *)
+LoadFail == /\ inload /\ nfaults < MaxFaults /\ nfaults' = nfaults + 1 /\ inload' = FALSE
+            /\ UNCHANGED <<mem, disk, loaded, pc, cur, acked, events, nops, ncrashes, ghostDisk, injected, obs>>
+(* a concurrent reader: like every access it passes the load barrier first *)
+Read(k) == /\ loaded /\ pc = "idle" /\ obs' = [k |-> k, v |-> mem[k], d |-> disk[k]]
+           /\ UNCHANGED <<mem, disk, loaded, pc, cur, acked, events, nops, nfaults, ncrashes, ghostDisk, inload, injected>>
+Next == (\E k \in Keys : Begin(k) \/ LoadItem(k) \/ Read(k)) \/ DiskOK \/ DiskFail \/ MemApply \/ Ack \/ Crash \/ LoadStart \/ LoadOK \/ LoadFail
 Spec == Init /\ [][Next]_vars
 
 (* disk = result of all operations whose disk write succeeded *)
@@ -55,4 +71,7 @@ MemBehindOnlyInside == loaded => \A k \in Keys : mem[k] = disk[k] \/ (cur.k = k 
 (* a failed disk write is invisible *)
 FailedWriteInvisible == [][(pc = "disk" /\ pc' = "idle" /\ ncrashes' = ncrashes) => (mem' = mem /\ events' = events /\ disk' = disk)]_vars
 AfterRecovery == [][(~loaded /\ loaded') => mem' = disk]_vars
+(* no caller ever observes an empty or partly loaded state *)
+ReadsSeeDisk == obs.v = obs.d
+LoadOnlyWhenNeeded == inload => ~loaded
 =============================================================================
